@@ -39,6 +39,9 @@ SYMBOLS = {
     "L": (10.0, 18.0, 0.0, 0.1),
     "W": (17.0, 31.0, 0.0, 6.0),
     "X": (2.0, 48.0, 80.0, 15.0),  # "wildly different" filler for out-of-window rows
+    "Z": (10.0, 18.0, 0.0, 0.03),  # reference ET below the 0.1 floor prepare_weather enforces (user-built tables can carry it)
+    "T": (36.0, 47.0, 0.0, 10.0),  # tropical night: minimum temperature above every crop's upper temperature
+    "F": (-12.0, -2.0, 0.0, 0.5),  # frost: maximum temperature below every crop's base temperature
 }
 WORDS = {
     "normal": "NNNRNNN",
